@@ -181,7 +181,7 @@ EXCLUDE: dict = {}
 
 
 def plan(tier):
-    return [{"n": 150, "depth": 2}] * 16 if tier == "quick" else [{"n": 6000, "depth": 2}] * 32 + [{"n": 1500, "depth": 3}] * 16
+    return [{"n": 150, "depth": 2}] * 16 if tier == "quick" else [{"n": 1200, "depth": 2}] * 32 + [{"n": 300, "depth": 3}] * 16
 
 
 def run_shard(spec, seed, res, only_bucket=None):
